@@ -582,6 +582,7 @@ func checkC15(c *Ctx) {
 	dispatchOwnContext(c, "R-own-context")
 	c15SessionInContext(c)
 	c15IDPresence(c)
+	c15ResultPrivate(c, "R-result-private")
 
 	// ---- R-error-internal: "a middleware error becomes a JSON-RPC internal error for that request": wherever a
 	// transport calls the request entry, every path that leaves the err != nil edge builds an answer with code -32603.
@@ -613,6 +614,13 @@ func checkC15(c *Ctx) {
 			}
 		})
 		return found
+	}
+	// functions that remove an entry from a table of a server-lifetime object (session table, stream table)
+	sessionRemovers := map[*ssa.Function]string{}
+	for _, a := range CollectAccesses(c) {
+		if a.Kind == "map-delete" && !a.Local && !a.Init && !clientSide(c, a.Fn) {
+			sessionRemovers[a.Fn] = a.Field
+		}
 	}
 	for _, fn := range c.P.LibFns {
 		if clientSide(c, fn) || belowEntry[fn] {
@@ -686,6 +694,44 @@ func checkC15(c *Ctx) {
 						}
 					}
 					return sprintf("%s never tests the error returned by %s: a failing middleware gets no internal-error answer", fname(f), en)
+				}
+				// "for that request only": what runs only because the entry failed ends nothing that belongs to the
+				// session as a whole (the session itself, its listening stream): the other requests of the session
+				// still pass the chain
+				{
+					var okEdge *ssa.BasicBlock
+					for _, b := range f.Blocks {
+						for i, sct := range b.Succs {
+							if sct == failEdge && len(b.Succs) == 2 {
+								okEdge = b.Succs[1-i]
+							}
+						}
+					}
+					onlyOnError := flow.BlocksReachableAvoiding(failEdge, nil)
+					if okEdge != nil {
+						for b := range flow.BlocksReachableAvoiding(okEdge, nil) {
+							delete(onlyOnError, b)
+						}
+					}
+					for b := range onlyOnError {
+						for _, in2 := range b.Instrs {
+							ci, ok := in2.(ssa.CallInstruction)
+							if !ok {
+								continue
+							}
+							for _, cal := range ir.Callees(c.G, ci) {
+								if !c.P.IsLib(cal) {
+									continue
+								}
+								for g := range c.ReachSync(cal) {
+									if sessionRemovers[g] != "" {
+										c.R.Violate("R-error-internal", sprintf("failure of the request entry in %s ends session state", fname(f)), c.Pos(ci.Pos()),
+											sprintf("on the err != nil edge of the request entry %s calls %s, which removes an entry of %s: the failure of one request (a middleware error) ends the session or its stream, and every other request of that session is refused before it reaches the chain — the error is not confined to its request", fname(f), fname(cal), sessionRemovers[g]))
+									}
+								}
+							}
+						}
+					}
 				}
 				builders := map[*ssa.BasicBlock]bool{}
 				for _, b := range f.Blocks {
@@ -1003,4 +1049,94 @@ func c15IDPresence(c *Ctx) {
 		c.R.Break("R-id-presence: only %d loads of an id member and %d presence tests found on the server side", nLoads, nCond)
 	}
 	c.R.Hold("R-id-presence", "id members of decoded messages on the server side", "", sprintf("%d loads examined, %d presence tests (comparison with nil), no test computed from the id's value", nLoads, nCond))
+}
+
+// ---------------------------------------------------------------- R-result-private
+// A middleware's after-stage may modify the result it is handed ("modify-result"); that is applied exactly once only
+// if the method handler's result is a value made for this request. A slice-typed member of a *…Result a handler builds
+// must therefore not be a slice that lives in a member of a long-lived object (a cached snapshot handed out again and
+// again): what one request's middleware writes into it is there for the next request, on top of which it is applied
+// again (and leaks between sessions).
+func c15ResultPrivate(c *Ctx, rule string) {
+	var shared func(fn *ssa.Function, v ssa.Value, d int, seen map[ssa.Value]bool) string
+	shared = func(fn *ssa.Function, v ssa.Value, d int, seen map[ssa.Value]bool) string {
+		if v == nil || d > 6 || seen[v] {
+			return ""
+		}
+		seen[v] = true
+		switch x := v.(type) {
+		case *ssa.UnOp:
+			if x.Op != token.MUL {
+				return ""
+			}
+			if u := unspill(x); u != ssa.Value(x) {
+				return shared(fn, u, d+1, seen)
+			}
+			if fa, ok := x.X.(*ssa.FieldAddr); ok {
+				key, _, _, base := ir.FullField(fa)
+				if key != "" && !ir.BaseAlloc(base) {
+					owner := ir.FullFieldOwner(fa)
+					if owner != nil && ir.InLibrary(owner) && concurrentStruct(owner) {
+						return key
+					}
+				}
+			}
+		case *ssa.Slice:
+			return shared(fn, x.X, d+1, seen)
+		case *ssa.Phi:
+			for _, e := range x.Edges {
+				if k := shared(fn, e, d+1, seen); k != "" {
+					return k
+				}
+			}
+		case *ssa.Extract:
+			return shared(fn, x.Tuple, d+1, seen)
+		case *ssa.Call:
+			sc := ir.StaticCallee(x)
+			if sc == nil || !c.P.IsLib(sc) || sc.Blocks == nil {
+				return ""
+			}
+			for _, b := range sc.Blocks {
+				if ret, ok := b.Instrs[len(b.Instrs)-1].(*ssa.Return); ok && b != sc.Recover && len(ret.Results) > 0 {
+					if k := shared(sc, ir.Results(ret)[0], d+1, seen); k != "" {
+						return k
+					}
+				}
+			}
+		}
+		return ""
+	}
+	n := 0
+	for _, fn := range c.P.LibFns {
+		if clientSide(c, fn) {
+			continue
+		}
+		ir.EachInstr(fn, func(_ *ssa.BasicBlock, _ int, in ssa.Instruction) {
+			st, ok := in.(*ssa.Store)
+			if !ok {
+				return
+			}
+			fa, ok := st.Addr.(*ssa.FieldAddr)
+			if !ok {
+				return
+			}
+			f, base, ok := ir.FieldOf(fa)
+			if !ok || f.Struct == nil || !strings.HasSuffix(f.Struct.Obj().Name(), "Result") || !ir.InLibrary(f.Struct) {
+				return
+			}
+			if _, isSlice := f.Type.Underlying().(*types.Slice); !isSlice {
+				return
+			}
+			if !ir.BaseAlloc(base) {
+				return
+			}
+			n++
+			k := shared(fn, st.Val, 0, map[ssa.Value]bool{})
+			c.R.Check(k == "", rule, sprintf("%s of the result built in %s", f.Key(), fname(fn)), c.Pos(st.Pos()), "a slice made for this request",
+				sprintf("%s puts into %s the slice kept in %s, a member of a long-lived object: every request is answered with the same backing array, so what a result-modifying middleware writes into one answer is still there for the next request (and is applied on top again), across sessions", fname(fn), f.Key(), k))
+		})
+	}
+	if n < 3 {
+		c.R.Break("%s: only %d slice members of handler results are filled in", rule, n)
+	}
 }
